@@ -202,7 +202,7 @@ func TestC18(t *testing.T) {
 		return
 	}
 	rec.ReplayTier()
-	check(rec, "printf-random", scale(25000, 500000), func(rt *rapid.T) {
+	check(rec, "printf-random", scale(25000, 25000000), func(rt *rapid.T) {
 		c, labels := genC18(rt)
 		var ls []string
 		for l := range labels {
